@@ -128,22 +128,29 @@ CLAIMED = {
    text="Coq theorems C16_exit (for every list of per-file results in every completion order, with or without fail-fast and Ctrl-C, the drivers' bookkeeping exits 0 iff no file failed and nothing was cancelled), "
         "C16_failure_or_interrupt_is_nonzero, C16_junit (the JUnit totals equal the counts of the per-file results and contain one case per file) about the model Cli.v of run_serial/run_parallel's result bookkeeping. "
         "Correspondence: the real binary with the scripted fake engine over 1..12 files with independently chosen outcomes (pass, failing record, parse error, engine exits, engine never starts, crashing task), serial and -j 1..8, "
-        "varying latencies, with/without --junit and --fail-fast; exit status, status tags, parsed JUnit XML against the ground truth and the model. Known finding D11.",
-   ref="4/C16", technique="Coq proof (induction over per-file results in any order) + differential correspondence with the real binary and a scripted engine",
-   note="Trusted: Coq kernel; partial: that tokio delivers every task completion to the bookkeeping is observed, not proved; the XML layer is parsed by Python's ElementTree."),
+        "varying latencies, with/without --junit and --fail-fast; exit status, status tags, parsed JUnit XML against the ground truth and the model. Known finding D11. "
+        "Since the driver model exists (Driver.v: small-step model of run_parallel, connect_and_run_test_file and the RUNNING_TESTS lock with the scheduler, Ctrl-C and the order of closes as explicit choices): "
+        "C16_driver_results_consistent (the premise of C16_exit is a theorem about everything the driver can produce), C16_driver_exit (its exit decision is 0 iff every reported result is Ok and no Ctrl-C), "
+        "C16_driver_reports_each_file_once; every parallel run of the real binary, fail-fast and refusals included, is replayed by the extracted driver model on the schedule reconstructed from it and must give the same trace, reports and exit.",
+   ref="4/C16", technique="Coq proof (induction over per-file results in any order; invariants of a small-step model of the parallel driver under every schedule) + differential correspondence with the real binary and a scripted engine, incl. replay of each parallel run by the extracted driver model",
+   note="Trusted: Coq kernel; partial: the schedule is reconstructed from engine-side time stamps and the order of the reports on stdout (canonicalised for logging lag; an unexplained run is repeated twice before it is reported); run_serial is covered by Cli.v only; the XML layer is parsed by Python's ElementTree."),
  "C17": dict(
    text="Coq theorems C17_create_before_use, C17_session_integrity, C17_session_unique, C17_bounded_concurrency, C17_close_before_drop, C17_dropped_exactly_once_unless_kept: every trace accepted by the observer automaton Par.v "
         "(any length, any interleaving) uses a database only after its CREATE, never shares a session between files, has at most `jobs` files in flight, closes every session of a database before its DROP and drops every created database "
         "exactly once unless kept. Correspondence: the time-ordered log of the fake engine processes under the real binary with -j 1..8 (2..10 files, named connections, `$__DATABASE__` in every statement, failing/dying engines, "
-        "latency patterns forcing many interleavings, --keep-db-on-failure, long common path prefixes) must be accepted by the extracted automaton and satisfy the clauses evaluated directly; the library's run_parallel is observed too (known finding D10).",
-   ref="4/C17", technique="Coq proof (invariants of an observer automaton over all traces) + trace-acceptance correspondence with the real binary",
-   note="Trusted: Coq kernel; partial: the theorems quantify over all accepted traces; that the tokio scheduler only produces accepted traces is sampled, not proved; ordering by CLOCK_MONOTONIC timestamps of the engine processes."),
+        "latency patterns forcing many interleavings, --keep-db-on-failure, long common path prefixes) must be accepted by the extracted automaton and satisfy the clauses evaluated directly; the library's run_parallel is observed too (known finding D10). "
+        "C17_driver_refines_observer: every trace the driver model Driver.v emits - under every list of scheduler choices, any arrival of Ctrl-C, any order of closes - is accepted by the observer automaton, so all of the above holds of every run of "
+        "the model of the code, not only of accepted traces; C17_driver_end_closed. Every -j run of the real binary (incl. engines that wind down slowly and sessions whose ends depend on each other) is replayed by the extracted driver model.",
+   ref="4/C17", technique="Coq proof (forward simulation: small-step model of run_parallel under every schedule refines an observer automaton whose invariants give the clauses) + trace-acceptance and model-replay correspondence with the real binary",
+   note="Trusted: Coq kernel; partial: that tokio's scheduler realises only schedules of the model is sampled (each observed run is replayed by the model), not proved; ordering by CLOCK_MONOTONIC timestamps of the engine processes; a DROP answered with 'Connection refused' (loop break) is not modelled."),
  "C19": dict(
    text="Coq theorems C19_no_new_work (in every accepted trace a connection after the Cancel event belongs to a file started before it), C19_release (every accepted closed trace has closed every connection it opened), "
         "C19_exit_nonzero (Ctrl-C at any point or any failure gives a non-zero exit status for every result list), C19_fail_fast_cancels (under fail-fast the first failure sets the token for good), about Par.v and Cli.v. "
         "Correspondence: the real binary, serial and -j 2..4: the fake engine sends SIGINT to the CLI at its k-th request for every k (thorough) / a spread incl. the CREATE and DROP phases (quick), and --fail-fast with the failing file at every position: "
-        "exit status, no session or SQL after the interrupt, every session reaches EOF, every CREATE has its DROP, JUnit with one case per file, termination, automaton acceptance with the Cancel event.",
-   ref="4/C19", technique="Coq proof (observer automaton with Cancel + bookkeeping model) + signal injection at every request against the real binary",
+        "exit status, no session or SQL after the interrupt, every session reaches EOF, every CREATE has its DROP, JUnit with one case per file, termination, automaton acceptance with the Cancel event. "
+        "C19_driver_progress / C19_driver_never_doomed: in the driver model Driver.v no reachable state short of the end is stuck and a measure bounds the remaining steps - the logic of the drivers, the per-file tasks and the RUNNING_TESTS lock has "
+        "no deadlock and no livelock, whatever the scheduler did and whenever Ctrl-C or a fail-fast cancellation struck (with jobs >= 1; -j 0 hangs in model and code alike, see DESIGN 0.8).",
+   ref="4/C19", technique="Coq proof (observer automaton with Cancel + bookkeeping model + progress/termination measure on the small-step driver model) + signal injection at every request against the real binary",
    note="Trusted: Coq kernel; partial: signal delivery latency (400 ms allowance inside a 600 ms grace), bounded-time exit (60 s limit) and kill_on_drop are runtime behaviour, observed not proved."),
  "C18": dict(
    text="Coq theorems C18_cover (for ANY hash function and count > 0 every path has exactly one partition id), C18_partition_exact, C18_exactly_one_id (over ids 0..N-1 every file of a glob lies in exactly one selection), "
